@@ -1,6 +1,7 @@
 package main
 
 import (
+	"os"
 	"fmt"
 	"go/ast"
 	"go/token"
@@ -12,7 +13,7 @@ import (
 )
 
 func newGen(prog *Program, fn *ssa.Function, con *Contract) *Gen {
-	return &Gen{prog: prog, u: prog.u, fn: fn, key: fnKey(fn), con: con,
+	return &Gen{prog: prog, u: prog.u, fn: fn, topFn: fn, key: fnKey(fn), con: con,
 		declared: map[string]bool{}, vals: map[ssa.Value]Val{}, blockR: map[*ssa.BasicBlock]string{},
 		endSt: map[*ssa.BasicBlock]*State{}, counters: map[string]int{}, closures: map[ssa.Value]*ssa.MakeClosure{},
 		deferR: map[*ssa.Defer]string{},
@@ -182,6 +183,15 @@ func (g *Gen) Run() (err error) {
 		g.block(b, st)
 	}
 	g.exit()
+	// a site clause that matched no instruction states nothing: the code it speaks about is gone
+	if g.con != nil && len(g.inlining) == 0 {
+		for _, sc := range g.con.Sites {
+			g.siteOrd(sc.Match, nil)
+			if len(g.siteSeen["site:"+sc.Match]) <= sc.Ord {
+				return fmt.Errorf("%s: site clause %s#%d matches no instruction of the function", g.key, sc.Match, sc.Ord)
+			}
+		}
+	}
 	return nil
 }
 
@@ -818,6 +828,29 @@ func (g *Gen) scanLoopPass(li *loopInfo, st *State, pass int) {
 	sort.Strings(li.kinds)
 }
 
+// readOnlyBody: the function only loads, computes and returns (len/cap are the only calls).
+func readOnlyBody(fn *ssa.Function) bool {
+	for _, b := range fn.Blocks {
+		for _, ins := range b.Instrs {
+			switch x := ins.(type) {
+			case *ssa.Store, *ssa.MapUpdate, *ssa.Alloc, *ssa.MakeSlice, *ssa.MakeMap, *ssa.MakeChan, *ssa.MakeClosure,
+				*ssa.Go, *ssa.Defer, *ssa.Send, *ssa.Select, *ssa.Panic, *ssa.RunDefers:
+				return false
+			case *ssa.Convert:
+				if isByteSlice(x.Type()) && isString(x.X.Type()) {
+					return false
+				}
+			case *ssa.Call:
+				bi, ok := x.Call.Value.(*ssa.Builtin)
+				if !ok || (bi.Name() != "len" && bi.Name() != "cap") {
+					return false
+				}
+			}
+		}
+	}
+	return true
+}
+
 func (g *Gen) scanCall(li *loopInfo, st *State, ins ssa.CallInstruction, kinds map[string]bool, addLoc func(k, loc string)) {
 	if _, isGo := ins.(*ssa.Go); isGo {
 		return
@@ -858,8 +891,12 @@ func (g *Gen) scanCall(li *loopInfo, st *State, ins ssa.CallInstruction, kinds m
 		}
 	}
 	if ci.con == nil {
-		if ci.inlineFn != nil {
-			// conservative: treat as havoc-all (inlined bodies are small; refine when needed)
+		if ci.fn != nil && g.canInline(ci) && readOnlyBody(ci.fn) {
+			return // an inlined getter: no stores, no allocation, no calls
+		}
+		// conservative: treat as havoc-all (inlined bodies are small; refine when needed)
+		if os.Getenv("GOVC_DEBUG") != "" {
+			fmt.Fprintf(os.Stderr, "debug: loop %d of %s loses its frame at call %s\n", li.ord, g.key, ci.key)
 		}
 		li.allHav = true
 		return
